@@ -448,3 +448,159 @@ def if_branches(ex, ifnode, pats):
             if match(n, pattern(p)) is not None:
                 return orelse, body
     return None
+
+
+# ---------------------------------------------------------------------------------------------
+# shared sweep: options whose value 0 is legitimate are never tested by truthiness
+
+def zero_is_valid_sweep(ctx, names, what):
+    """Every boolean use (`if x`, `not x`, `x or d`, `x and y`, bool(x)) of an expression that
+    denotes one of `names` (a local / parameter, an attribute `.name`, `d['name']`,
+    `d.get('name')`) in the package, outside examples.  `x or <falsy constant>` is harmless (the
+    fallback equals the value it replaces) and is not reported."""
+    n_sites = 0
+
+    def denotes(e):
+        if isinstance(e, ast.Name) and e.id in names:
+            return e.id
+        if isinstance(e, ast.Attribute) and e.attr in names:
+            return e.attr
+        if isinstance(e, ast.Subscript) and isinstance(e.slice, ast.Constant) and \
+                e.slice.value in names:
+            return e.slice.value
+        if isinstance(e, ast.Call) and isinstance(e.func, ast.Attribute) and \
+                e.func.attr == 'get' and e.args and isinstance(e.args[0], ast.Constant) and \
+                e.args[0].value in names and len(e.args) == 1:
+            return e.args[0].value
+        return None
+    base_denotes = denotes
+
+    def local_aliases(fnode):
+        """{local name: option} for `t = <denoting expr>` and for
+        `a, b = [d.get(k) for k in ('x', 'y')]` / `(d['x'], d['y'])`."""
+        out = {}
+        counts = {}
+        for n in ast.walk(fnode):
+            if isinstance(n, ast.Name) and isinstance(n.ctx, ast.Store):
+                counts[n.id] = counts.get(n.id, 0) + 1
+        for n in ast.walk(fnode):
+            if not isinstance(n, ast.Assign) or len(n.targets) != 1:
+                continue
+            tg, v = n.targets[0], n.value
+            if isinstance(tg, ast.Name) and counts.get(tg.id) == 1:
+                nm = base_denotes(v)
+                if nm is not None:
+                    out[tg.id] = nm
+            if isinstance(tg, ast.Tuple) and all(isinstance(e, ast.Name) for e in tg.elts):
+                keys = None
+                if isinstance(v, (ast.ListComp, ast.GeneratorExp)) and len(v.generators) == 1 and \
+                        isinstance(v.generators[0].iter, (ast.Tuple, ast.List)) and \
+                        all(isinstance(e, ast.Constant) for e in v.generators[0].iter.elts):
+                    keys = [e.value for e in v.generators[0].iter.elts]
+                elif isinstance(v, (ast.Tuple, ast.List)):
+                    keys = [base_denotes(e) for e in v.elts]
+                if keys and len(keys) == len(tg.elts):
+                    for e, k in zip(tg.elts, keys):
+                        if k in names and counts.get(e.id) == 1:
+                            out[e.id] = k
+        return out
+    for m in ctx.repo.modules.values():
+        if not m.name.startswith('elfi') or m.name.startswith('elfi.examples') or \
+                m.name.startswith('elfi.visualization'):
+            continue
+        fns = [f for f in m.all_functions if getattr(f, 'node', None) is not None and
+               not isinstance(f.node, ast.Lambda)]
+        for f in fns:
+            al = local_aliases(f.node)
+
+            def denotes(e, al=al):
+                r = base_denotes(e)
+                if r is None and isinstance(e, ast.Name) and e.id in al:
+                    return al[e.id]
+                return r
+            for n in own_nodes(f.node):
+                sites = []
+                if isinstance(n, (ast.If, ast.While, ast.IfExp)):
+                    sites.append((n.test, 'condition'))
+                if isinstance(n, ast.UnaryOp) and isinstance(n.op, ast.Not):
+                    sites.append((n.operand, 'not'))
+                if isinstance(n, ast.BoolOp):
+                    for i, v in enumerate(n.values):
+                        last = i == len(n.values) - 1
+                        if last and isinstance(n.op, ast.Or):
+                            continue          # the fallback itself is not tested
+                        if isinstance(n.op, ast.Or) and i == len(n.values) - 2:
+                            fb = n.values[-1]
+                            if isinstance(fb, ast.Constant) and not fb.value and \
+                                    fb.value is not None:
+                                continue      # `x or 0`: fallback equals the falsy value
+                        sites.append((v, 'and/or operand'))
+                if isinstance(n, ast.Call) and isinstance(n.func, ast.Name) and \
+                        n.func.id == 'bool' and n.args:
+                    sites.append((n.args[0], 'bool()'))
+                for (e, kind) in sites:
+                    nm = denotes(e)
+                    if nm is None:
+                        continue
+                    n_sites += 1
+                    ctx.bad(f, 'truthiness test of `{}`'.format(nm),
+                            '`{}` is tested by truth value ({}): {} = 0 is a legitimate value and '
+                            'is treated as "not given"'.format(src(e)[:50], kind, nm), fn=f,
+                            node=n)
+    return n_sites
+
+
+_SWEEP_EXAMPLE = '''
+def f(seed, threshold, d):
+    if not seed:
+        pass
+    t = threshold or 1.0
+    k = d.get('index_in_batch') or 0
+    if d['batch_index']:
+        pass
+    ok = seed is None
+'''
+
+
+def zero_is_valid_obligation(ctx, names):
+    """Body of the per-property obligations built on the sweep (expected count on a healthy tree:
+    zero, so a positive example is matched on every run)."""
+    import ast as _ast
+    # positive example: the matcher must report `not seed`, `threshold or 1.0`, `d['batch_index']`
+    # and must not report `... or 0` nor `seed is None`
+    tree = _ast.parse(_SWEEP_EXAMPLE)
+    for n in _ast.walk(tree):
+        for c in _ast.iter_child_nodes(n):
+            c._parent = n
+
+    class _F:
+        node = tree.body[0]
+        qname = 'example:f'
+        name = 'f'
+
+    class _M:
+        name = 'elfi._sweep_example'
+        all_functions = [_F]
+
+    class _R:
+        modules = {'elfi._sweep_example': _M}
+
+    class _C:
+        repo = _R
+        found = []
+
+        def bad(self, f, role, detail, fn=None, node=None):
+            self.found.append(role)
+    probe = _C()
+    zero_is_valid_sweep(probe, {'seed', 'threshold', 'batch_index', 'index_in_batch'}, '')
+    if sorted(probe.found) != ['truthiness test of `batch_index`', 'truthiness test of `seed`',
+                               'truthiness test of `threshold`']:
+        raise AnalysisError('truthiness sweep self-test failed: {}'.format(sorted(probe.found)))
+    before = len(ctx.instances)
+    n = zero_is_valid_sweep(ctx, set(names), '')
+    if n == 0:
+        nf = sum(len(m.all_functions) for m in ctx.repo.modules.values()
+                 if m.name.startswith('elfi') and not m.name.startswith('elfi.examples'))
+        for nm in sorted(names):
+            ctx.ok('elfi', 'no truthiness test of `{}`'.format(nm),
+                   '{} functions scanned; positive example matched'.format(nf))
